@@ -83,6 +83,10 @@ def configs(t):
                     triggers=[['rpc', 1, 'stop_application', ['A', False]]], cost=4))
     out.append(base('stop_application-inherited', [B], setup=[started(1, 'B')],
                     triggers=[['rpc', 0, 'stop_application', ['B', False]]]))
+    # "started first, stopped last": an explicit stop_sequence of 0 is the lowest rank, not an unset value
+    Z = app('A', 0, [prog('a', 1, stop_sequence=0), prog('b', 2, stop_sequence=1), prog('c', 3, stop_sequence=2)])
+    out.append(base('stop_application-explicit-zero', [Z], setup=[started(0, 'A')],
+                    triggers=[['rpc', 1, 'stop_application', ['A', False]]]))
     out.append(base('stop_process', [A], setup=[started(0, 'A')], job_kind='process',
                     triggers=[['rpc', 1, 'stop_process', ['A:a', False]]]))
     out.append(base('restart_application-stop-part', [A], setup=[started(0, 'A')],
@@ -102,6 +106,21 @@ def configs(t):
     out.append(base('restart-n3-loss-of-slave', [A2, B2], n=3, setup=[started(0, 'A'), started(1, 'B')],
                     job_kind='ending', triggers=[['rpc', 0, 'restart', []]], T=3, F=1, faults=['crash'], crashable=[1, 2],
                     cost=8))
+    # a non-Master instance is lost during the ending phase while the synchronisation conditions are strict
+    for strat in ('RESYNC', 'SHUTDOWN'):
+        out.append(base(f'shutdown-n3-STRICT-{strat}-loss-of-slave', [A2, B2], n=3,
+                        setup=[started(0, 'A', 'CONFIG'), started(0, 'B', 'CONFIG')], job_kind='ending',
+                        options={'synchro_options': 'STRICT', 'supvisors_failure_strategy': strat},
+                        triggers=[['rpc', 0, 'shutdown', []]], T=3, F=1, faults=['crash'], crashable=[1, 2],
+                        behaviours=['stopped'], cost=8))
+    # a stop / restart of an application is in flight when the shutdown is requested
+    out.append(base('stop_process-then-shutdown', [A2, B2], setup=[started(0, 'A', 'CONFIG'), started(1, 'B', 'CONFIG')],
+                    job_kind='ending', triggers=[['rpc', 0, 'stop_process', ['A:a', False]], ['rpc', 0, 'shutdown', []]],
+                    T=5, cost=5))
+    out.append(base('restart_application-then-shutdown', [A2, B2],
+                    setup=[started(0, 'A', 'CONFIG'), started(1, 'B', 'CONFIG')], job_kind='ending',
+                    triggers=[['rpc', 0, 'restart_application', ['CONFIG', 'A', False]], ['rpc', 1, 'shutdown', []]],
+                    T=5, cost=5))
     # slow stops: the instance is lost while its process is STOPPING (the acknowledgement came, not the end)
     A3 = app('A', 0, [prog('a', 1, stop_sequence=2, identifiers='10.0.0.2:25001'), prog('b', 2, stop_sequence=1)],
              stop_sequence=1)
